@@ -1,6 +1,7 @@
 """C09 - the scoring parameters used are exactly the ones the caller selected."""
-import os, struct, subprocess, tempfile, shutil, json
+import os, re, struct, subprocess, tempfile, shutil, json
 import kvlib
+import gen
 
 def fbits(x):
     return struct.unpack('<I', struct.pack('<f', x))[0]
@@ -88,6 +89,40 @@ def run(ck):
                               'replay': 'aln_param_init with bit patterns gpo=%d gpe=%d tgpe=%d on biotype %d type %d' % (g, e, t, bt, ty)})
     ck.count('aln_param_init cases', len(lines))
     ck.count('type words', len(wl))
+    # (b2) the library entry points hand the three penalties on unchanged and in order: kalign() (array API) and
+    # kalign_read_input + kalign_run (file API), observed through the PARAMS hook, with three pairwise different overrides
+    import tempfile as _tf
+    kvh_run = ck.harness('omp', 'kvh')
+    dseqs = ['ACGTTGCAACGTAC', 'ACGTGCAACGGTAC', 'ACTTGCAACGTC']; pseqs = ['MKWLEFAHRT', 'MKWLDFAHKT', 'MKWEFAHRTW']
+    atmp = _tf.mkdtemp(prefix='kv_c09api_')
+    try:
+        alines, ameta = [], []
+        for bt, sq in ((1, dseqs), (0, pseqs)):
+            fa = os.path.join(atmp, 'in%d.fa' % bt); open(fa, 'w').write(gen.fasta(['a', 'b', 'c'], sq))
+            for ty in ((0, 1, 2, 5) if bt == 1 else (3, 4, 5)):
+                for mask in range(8):
+                    vals = [fbits(v) if mask & (1 << i) else gen.NG for i, v in enumerate((3.5, 1.25, 0.75))]
+                    alines.append('run 4 1 %d %d %d %d %s' % (ty, vals[0], vals[1], vals[2], ' '.join(gen.hexs(x) for x in sq)))
+                    ameta.append(('kalign()', bt, ty, vals))
+                    alines.append('runfile 4 1 %d %d %d %d fasta %s %s' % (ty, vals[0], vals[1], vals[2], os.path.join(atmp, 'o.fa'), fa))
+                    ameta.append(('kalign_run', bt, ty, vals))
+        ares = ck.run_lines(kvh_run, alines, timeout=600)
+        ck.evaluations += len(alines)
+        for (api, bt, ty, vals), ln, r in zip(ameta, alines, ares):
+            d = defaults.get((bt, ty if ty != 5 else (0 if bt == 1 else 3)))
+            dd = defaults.get((bt, ty)) or d
+            if dd is None: continue
+            exp = [vals[i] if ge0(vals[i]) else int(dd[1 + i]) for i in range(3)]
+            mo = re.search(r'PARAMS type=(-?\d+) biotype=(\d+) gpo=(\d+) gpe=(\d+) tgpe=(\d+)', r)
+            got = [int(mo.group(3)), int(mo.group(4)), int(mo.group(5))] if mo else None
+            if got != exp:
+                witnesses.append({'kind': 'library-entry-point', 'entry_point': api, 'case': ln[:200], 'expected_gpo_gpe_tgpe_bits': exp, 'observed': r[-160:],
+                                  'replay': '%s with type %d and penalties (bit patterns) %r' % (api, ty, vals)})
+            elif any(ge0(v) for v in vals):
+                ck.nontriv(('api', api, bt, ty, tuple(vals)))
+        ck.count('library entry point cases (kalign(), kalign_run)', len(alines))
+    finally:
+        shutil.rmtree(atmp, ignore_errors=True)
     # (c) CLI end to end
     tmp = tempfile.mkdtemp(prefix='kv_c09_')
     try:
